@@ -173,6 +173,13 @@ Step(s, e) ==
          Queried(s, CASE e.fn = "sig" -> SigStructure(e.ctx, e.body, e.signp, e.aad, e.pl)
                       [] e.fn = "mac" -> MacStructure(e.ctx, e.body, e.aad, e.pl)
                       [] e.fn = "enc" -> EncStructure(e.ctx, e.body, e.aad))
+    [] e.ev = "focus" ->      \* the user picks a nested structure out of the value they hold (plain field access)
+         (CASE e.f = "recip" -> [s EXCEPT !.mem = ValueMem("CoseRecipient", s.mem.val.recips[e.i + 1]), !.out = OutOk]
+            [] e.f = "sig" -> [s EXCEPT !.mem = ValueMem("CoseSignature", s.mem.val.sigs[e.i + 1]), !.out = OutOk]
+            [] e.f = "cs-unprot" -> [s EXCEPT !.mem = ValueMem("CoseSignature", s.mem.val.unprot.cs[e.i + 1]), !.out = OutOk]
+            [] e.f = "cs-prot" -> [s EXCEPT !.mem = ValueMem("CoseSignature", s.mem.val.prot.hdr.cs[e.i + 1]), !.out = OutOk]
+            [] e.f = "prot" -> [s EXCEPT !.mem = ValueMem("ProtectedHeader", s.mem.val.prot), !.out = OutOk]
+            [] e.f = "pub" -> [s EXCEPT !.mem = ValueMem("SuppPubInfo", s.mem.val.pub), !.out = OutOk])
     [] e.ev = "canonicalize" -> [s EXCEPT !.mem.val = Key_Canonicalize(@, e.ord), !.out = OutOk]
     [] e.ev = "clone_eq" -> [s EXCEPT !.out = OutOk]
 
